@@ -109,6 +109,24 @@ def classify(job, expected_names, binary):
     return classes, refs_complete, others
 
 
+_SHIM = []
+
+
+def short_write_shim():
+    """harness/shim/shortwrite.c compiled into the work directory (None when no C compiler is there: the variant is skipped)"""
+    if _SHIM:
+        return _SHIM[0]
+    out = os.path.join(C.WORK, "libshortwrite.so")
+    src = os.path.join(C.ROOT, "harness", "shim", "shortwrite.c")
+    try:
+        subprocess.run(["cc", "-O2", "-shared", "-fPIC", "-o", out, src, "-ldl"], check=True, capture_output=True, timeout=120)
+        _SHIM.append(out)
+    except Exception as e:
+        C.log("[C09] no short-write variant: the shim cannot be compiled (%s)" % str(e)[:80])
+        _SHIM.append(None)
+    return _SHIM[0]
+
+
 OPEN_RE = re.compile(r'^(\d+)\s+openat\(AT_FDCWD, "([^"]*)", ([A-Z_|]+)(?:, [0-7]+)?\) = (\d+)')
 RENAME_RE = re.compile(r'^(\d+)\s+renameat2?\(AT_FDCWD, "([^"]*)", AT_FDCWD, "([^"]*)"(?:, \w+)?\) = 0')
 RENAME2_RE = re.compile(r'^(\d+)\s+rename\("([^"]*)", "([^"]*)"\) = 0')
@@ -179,6 +197,10 @@ def run(prop, tier):
         # (value stores larger than the creator's 8 KiB write buffer - a flush and a direct write inside a store - and few contents:
         #  strace counts the k-th call per thread, the writes of the cluster-writer thread must not shadow the main thread's)
         scn = L.make_container(rng, 900 + k, n_entries=10, n_extras=nex, comp=rng.choice(["none", "zstd", "lz4"]), concat=mode, sizes=[0, 1, 5, 40])
+        # one incompressible content forced into a compressed cluster: a block of more than 8 KiB written in one call by the writer thread
+        scn["ops"].append({"cid": 900000 + k, "size": 20000, "cls": "rand", "hint": "yes"})
+        if scn["comp"] == "none" and mode != "one":
+            scn["comp"], scn["level"] = "zstd", 1
         for j, e in enumerate(scn["dirpack"]["entries"]):
             e["values"]["name"] = {"a": list(b"entry-%04d-" % j + bytes([97 + j % 26]) * 1100)}
             if "extra" in e["values"]:
@@ -249,6 +271,13 @@ def run(prop, tier):
             for kk in range(1, nerr + 2):
                 plans.append(("sys-error", kk, ["strace", "-f", "-o", "/dev/null", "-e",
                                                 "inject=write,pwrite64,renameat,renameat2,rename:error=ENOSPC:when=%d" % kk], None))
+            # a short write (the call writes a part of its buffer and says so): the k-th write to a regular file, every k.
+            # POSIX allows it at any time; whoever uses write instead of write_all loses the rest silently
+            shim = short_write_shim()
+            if shim:
+                nwr = len(re.findall(r"^\d+\s+write\(", sttext, re.M))
+                for kk in range(1, nwr + 2):
+                    plans.append(("short-write", kk, [], {"LD_PRELOAD": shim, "VERIF_SHORT_WRITE_AT": str(kk)}))
             t1 = time.time()
             for variant, kk, prefix, envx in plans:
                 job.reset()
